@@ -280,6 +280,15 @@ DEEP = {
     'class': ("start = N\nclass N { o: \"(\"; k: N?; c: \")\" }", lambda n: '(' * n + ')' * n, 'class'),
     'ignore': ("ignore / +/\nstart = [\"(\", start?, \")\"]", lambda n: '( ' * n + ') ' * n, 'list3'),
     'star': ("start = \"(\" >> start* << \")\"", lambda n: '(' * n + ')' * n, 'star'),
+    # several pending rule calls per character of input: chains of rules, an expression handed on as
+    # argument at every level, a class reached through two rules
+    'chain5': ("start = A\nA = B\nB = C\nC = D\nD = [\"(\", start?, \")\"]", lambda n: '(' * n + ')' * n, 'list3'),
+    'template-expr-arg': ("start = P(\"(\" | \"[\")\nP(o) = Q(o)\nQ(o) = [o, P(\"(\" | \"{\")?, \")\"]", lambda n: '(' * n + ')' * n, 'list3'),
+    # the argument itself nests one level per level of input (closure inside closure); matching is
+    # quadratic here, so the nesting is capped
+    'template-growing-arg': ("start = P(\"(\" | \"[\")\nP(o) = Q(o)\nQ(o) = [o, P(o | \"{\")?, \")\"]", lambda n: '(' * n + ')' * n, 'list3', 1500),
+    'class-via-rules': ("start = R1\nR1 = R2\nR2 = N\nclass N { o: \"(\"; k: R1?; c: \")\" }", lambda n: '(' * n + ')' * n, 'class'),
+    'named-chain': ("grammar vt_c17_deepchain\nstart = A\nA = B\nB = [\"(\", start?, \")\"]\nignore /_+/", lambda n: '(' * n + ')' * n, 'list3'),
 }
 
 
@@ -330,7 +339,9 @@ def dismantle(v):
 
 
 def deep_case(rec, name, n):
-    desc, mk, shape = DEEP[name]
+    desc, mk, shape = DEEP[name][:3]
+    if len(DEEP[name]) > 3:
+        n = min(n, DEEP[name][3])
     r = observe.compile_grammar(desc)
     if r[0] != 'ok':
         rec.violation('deep:grammar-error', 'Grammar()', dict(kind='deep', grammar=name), 'module', r)
@@ -380,6 +391,7 @@ def deep_case(rec, name, n):
                           'frame depth independent of input nesting (%d at nesting %d)' % (small, n // 10),
                           '%d at nesting %d' % (big, n))
     rec.sample(dict(deep=name, description=desc, nesting=n, frame_depth=results), limit=5)
+    sys.modules.pop('vt_c17_deepchain', None)
 
 
 def _frames():
